@@ -1,4 +1,5 @@
 import WcModel.Driver.Parse
+import WcModel.Driver.Spec
 /-
   wcdriver: one request per line on stdin, one reply per line on stdout.
   `<cmd> <field> <field> …`; unknown or malformed requests answer `bad-op`.
@@ -9,6 +10,7 @@ def dispatch (cmd : String) (args : List String) : Option String :=
   match cmd with
   | "parse" => Driver.handleParse args
   | "match" => Driver.handleMatch args
+  | "spec" => Driver.handleSpec args
   | "ping" => some "pong"
   | _ => none
 
